@@ -236,6 +236,41 @@ fn targeted(out: &mut Out, rng: &mut R) {
         m2.extend_from_slice(&m);
         on_bytes::<TxIn>(out, &m2, "targeted");
     }
+    // compact-size integers exactly at the width boundaries, in minimal and in every longer form, with the
+    // announced data present (so that an accepted non-minimal form would decode to an equal value)
+    for &(val, full) in &[(0usize, true), (1, true), (0xfc, true), (0xfd, true), (0xfe, true), (0xffff, true), (0x10000, true), (0x10001, true)] {
+        let data = gen::bytes(rng, if full { val } else { 0 });
+        let forms: Vec<Vec<u8>> = vec![
+            if val <= 0xfc { vec![val as u8] } else { vec![] },
+            if val <= 0xffff { let mut v = vec![0xfd]; v.extend_from_slice(&(val as u16).to_le_bytes()); v } else { vec![] },
+            { let mut v = vec![0xfe]; v.extend_from_slice(&(val as u32).to_le_bytes()); v },
+            { let mut v = vec![0xff]; v.extend_from_slice(&(val as u64).to_le_bytes()); v },
+        ];
+        for f in forms.into_iter().filter(|f| !f.is_empty()) {
+            let mut m = f.clone();
+            m.extend_from_slice(&data);
+            on_bytes::<Script>(out, &m, "varint-boundary");
+            // the same length prefix on the script_sig of an input, and as a witness stack item
+            let mut i = vec![7u8; 36];
+            i.extend_from_slice(&m);
+            i.extend_from_slice(&[0xff; 4]);
+            on_bytes::<TxIn>(out, &i, "varint-boundary");
+            // as an element count of a witness stack whose items are all empty
+            if val <= 0x10001 {
+                let mut w = vec![0u8, 0];
+                w.extend_from_slice(&f);
+                w.extend(std::iter::repeat(0u8).take(val));
+                w.push(0);
+                on_bytes::<TxInWitness>(out, &w, "varint-boundary");
+            }
+        }
+    }
+    // boundary values that cannot be materialised (4 GiB): the prefix alone, every form
+    for val in [0xffff_fffeu64, 0xffff_ffff, 0x1_0000_0000, 0x1_0000_0001] {
+        for f in [{ let mut v = vec![0xfeu8]; v.extend_from_slice(&(val as u32).to_le_bytes()); v }, { let mut v = vec![0xffu8]; v.extend_from_slice(&val.to_le_bytes()); v }] {
+            on_bytes::<Script>(out, &f, "varint-boundary");
+        }
+    }
     // header: dynafed bit with legacy ext and vice versa; params tag >= 3
     let h = gen::header(rng);
     let hb = serialize(&h);
